@@ -168,16 +168,9 @@ def c14_r2(ctx):
     ctx.inst('ProcessingTime::process|final drain', {'drain(..) on FlushAndRestart/Terminate': okf})
     if not okf:
         ctx.viol('%s|no-final-drain' % pr.path, pr.at, 'pending processing-time windows are not all flushed at the end of the iteration', None)
-    act = 0
-    for g in facts.closures_of(pr):
-        s2 = q.sym(facts, g)
-        for blk in g.blocks:
-            for s in blk['s']:
-                if s['k'] == 'assign' and s['lhs'] == [0] and g.locals[0]['ty'] == 'bool' and render(strip(s2.rvalue(s['rv']))).endswith('.active'):
-                    act += 1
-    ctx.inst('ProcessingTime::process|active filter', {'filters on .active': act, 'drain sites': len(drains)})
-    if act < len(drains):
-        ctx.viol('%s|empty-results' % pr.path, pr.at, 'a drain of processing-time windows is not filtered by `active`: empty results would be emitted', None)
+    from .timeorder import release_chains
+    if release_chains(ctx, facts, pr, 'ProcessingTime::process') < len(drains):
+        raise AnchorMissing('ProcessingTimeWindowManager::process: a drain does not feed an iterator chain the rule can follow')
     # session windows: the data edge feeds exactly one slot; results come from taking that slot
     sp = facts.method(SWM, 'process', trait=WM)
     fam = facts.family(sp)
